@@ -1,4 +1,5 @@
 import SemantivaModel.Driver.C01
+import SemantivaModel.Driver.C02
 import SemantivaModel.Driver.C08
 import SemantivaModel.Driver.C11
 import SemantivaModel.Driver.C12
@@ -34,6 +35,8 @@ def dispatch (st : DState) (j : Json) : Except String (DState × Json) := do
   else if m.startsWith "c01." then
     let (s, r) ← C01.handle st.c01 m j
     pure ({ st with c01 := s }, r)
+  else if m.startsWith "c02." then
+    pure (st, ← C02.handle m j)
   else throw s!"unknown model op {m}"
 
 partial def loop (h : IO.FS.Stream) (out : IO.FS.Stream) (st : DState) : IO Unit := do
